@@ -74,6 +74,8 @@ def calls_in(node, include_lambda=True):
 
 def call_attr(call):
     """Last attribute / function name of a call: x.y.foo(...) -> 'foo'."""
+    if not isinstance(call, ast.Call):
+        return None
     f = call.func
     if isinstance(f, ast.Attribute):
         return f.attr
